@@ -10,12 +10,22 @@ package hctx
 import (
 	"context"
 	"errors"
+	"time"
 )
 
 // ErrCause is the cause used by WithCause contexts.
 var ErrCause = errors.New("harness: shutting down")
 
-type deadlineCtx struct{ context.Context }
+type deadlineCtx struct {
+	context.Context
+	dl time.Time
+}
+
+// Deadline reports a deadline that HAS ALREADY BEEN REACHED (the instant the context was made) although the context
+// has not ended: the state every real deadline context is in between its deadline instant and the moment its timer
+// is serviced.  Code that gives up because "the deadline has passed" instead of because Done() is closed returns an
+// error from a source that has not fired.
+func (c deadlineCtx) Deadline() (time.Time, bool) { return c.dl, true }
 
 func (c deadlineCtx) Err() error {
 	if c.Context.Err() != nil {
@@ -28,7 +38,7 @@ func (c deadlineCtx) Err() error {
 // context.Cause(ctx) == context.DeadlineExceeded, exactly as a context whose deadline passed.
 func DeadlineLike(parent context.Context) (ctx context.Context, end func()) {
 	inner, cancel := context.WithCancelCause(parent)
-	return deadlineCtx{inner}, func() { cancel(context.DeadlineExceeded) }
+	return deadlineCtx{inner, time.Now()}, func() { cancel(context.DeadlineExceeded) }
 }
 
 // WithCause returns a context that, once end() is called, is done with Err() == context.Canceled and
